@@ -582,7 +582,8 @@ pub fn run_check(check: &dyn Check, tier: Tier, seed: u64) -> i32 {
         }
         for v in &r.violations {
             let sig = v.signature();
-            if let Some(f) = open.iter().find(|f| f.signature == sig) {
+            let wild = format!("*|{}", v.locus);
+            if let Some(f) = open.iter().find(|f| f.signature == sig || f.signature == wild) {
                 *known_hits.entry(f.id.clone()).or_insert(0) += 1;
             } else {
                 new_violations.push(v.clone());
@@ -596,13 +597,12 @@ pub fn run_check(check: &dyn Check, tier: Tier, seed: u64) -> i32 {
 
     // replay files for new violations
     let mut replay_paths = vec![];
-    let mut seen = BTreeSet::new();
+    let mut seen: BTreeMap<String, u64> = BTreeMap::new();
     for (i, v) in new_violations.iter().enumerate() {
-        if !seen.insert(v.signature()) && i >= 3 {
+        let n = seen.entry(v.signature()).or_insert(0);
+        *n += 1;
+        if *n > 1 || replay_paths.len() >= 40 {
             continue;
-        }
-        if replay_paths.len() >= 10 {
-            break;
         }
         let dir = verif_root().join("replay").join(check.id());
         let _ = std::fs::create_dir_all(&dir);
@@ -640,6 +640,10 @@ pub fn run_check(check: &dyn Check, tier: Tier, seed: u64) -> i32 {
             v.locus,
             v.detail.chars().take(400).collect::<String>()
         );
+    }
+
+    for (sig, n) in &seen {
+        println!("  new-signature x{}: {}", n, sig);
     }
 
     let broken = events < check.min_events(tier)
